@@ -2,6 +2,7 @@
 From Coq Require Import List String Ascii Bool Arith Lia.
 From Entrait Require Import Tok Syn Opts Split FnParams Convert Codegen Expand Proj Proj2 Proj3 ProjSide.
 From Entrait.Proofs Require Import Base Shapes PC05.
+From Entrait.Proofs Require PC10.
 Import ListNotations.
 Local Open Scope string_scope.
 Local Open Scope list_scope.
@@ -474,8 +475,63 @@ Lemma no_entrait_t_no_clash19 h s body :
 Proof. intros H. apply c05_clash_c19. exact (no_entrait_t_no_clash h s body H). Qed.
 
 (** the guarded view the checker runs *)
+(** *** the attributes the macro adds use absolute paths *)
+Lemma good_view_and a b : good a -> good b -> good (view_and a b).
+Proof.
+  unfold good, view_and. intros Ha Hb. destruct (v_app a) eqn:Ea; [|exact Hb]. destruct (v_app b) eqn:Eb; [|rewrite Ea; exact Ha].
+  cbn. intros _. destruct (Ha eq_refl) as [-> ->]. destruct (Hb eq_refl) as [-> ->]. auto.
+Qed.
+
+Lemma In_minus_added added user x : In x (minus_attrs (added ++ user) user) -> In x added.
+Proof.
+  intros H. apply (PC10.cnt_le_In (minus_attrs (added ++ user) user) added); [|exact H].
+  intros y. rewrite PC10.count_added_all. apply le_n.
+Qed.
+
+Lemma export_gated_abs o r : attr_abs (export_gated o (TP ":"%char :: TP ":"%char :: r)) = true.
+Proof. unfold attr_abs. rewrite PC10.ungate_export_gated. reflexivity. Qed.
+
+Lemma gen_added_abs o ti mode im fns a : In a (PC10.gen_added o ti mode im fns) -> attr_abs a = true.
+Proof.
+  unfold PC10.gen_added, PC10.gen_unimock, PC10.gen_entrait, PC10.gen_mockall. intros H.
+  apply in_app_or in H as [H|H]; [|apply in_app_or in H as [H|H]].
+  - destruct (unimock_value o && negb (unimock_params_empty ti (o_mock_api o))); [|destruct H].
+    destruct H as [<-|[]]. unfold unimock_params. cbn [abs_path flat_map app path_sep pc]. apply export_gated_abs.
+  - destruct mode; [destruct H | destruct H as [<-|[]]; reflexivity].
+  - destruct (mockall_value o); [|destruct H]. destruct H as [<-|[]]. unfold mockall_params. cbn [abs_path flat_map app path_sep pc]. apply export_gated_abs.
+Qed.
+
+Lemma forallb_abs_minus o ti mode im fns user :
+  forallb attr_abs (minus_attrs (PC10.gen_added o ti mode im fns ++ user) user) = true.
+Proof. apply forallb_forall. intros x Hx. eapply gen_added_abs. eapply In_minus_added. exact Hx. Qed.
+
+Lemma c19_attrs_good v attr i items :
+  expand_items v attr i = Ok items -> good (c19_attrs_view (mkCtx v attr i) items).
+Proof.
+  intros H. destruct i as [h s body|h|h t|h|h tp st body sigs sf|h|h name body sigs sf|h|]; try discriminate H.
+  - destruct (expand_fn_inv _ _ _ _ _ _ H) as (a & tf & tg & mode & ib & Ha & _ & _ & _ & ->).
+    unfold c19_attrs_view, good. cbn [x_input]. rewrite parts_fn. cbn [decided v_app v_det v_holds]. intros _. split; [reflexivity|].
+    rewrite PC10.t_attrs_gen_trait_def. apply forallb_abs_minus.
+  - destruct (expand_trait_inv _ _ _ _ _ H) as (a0 & fns & deleg & methods & Ha & _ & _ & Hd & _ & ->).
+    match goal with |- context [[ITrait ?tr] ++ deleg ++ [IImpl ?im]] =>
+      destruct (parts_trait h t tr deleg im (delegation_trait_defs_shape _ _ _ _ _ _ Hd)) as (ds & Hp & Hds)
+    end.
+    unfold c19_attrs_view, good. cbn [x_input]. rewrite Hp. cbn [decided v_app v_det v_holds]. intros _. split; [reflexivity|].
+    rewrite forallb_app. apply andb_true_iff. split.
+    + rewrite PC10.t_attrs_gen_trait_def. apply forallb_abs_minus.
+    + apply forallb_forall. intros x Hx. apply in_flat_map in Hx as (d & Hd1 & Hd2).
+      assert (Hdel : In (ITrait d) deleg) by (rewrite Hds; apply in_map; exact Hd1).
+      exfalso. revert Hd2.
+      destruct (PC10.delegation_attrs _ _ _ _ _ _ d Hd Hdel) as [E|E]; rewrite E; [rewrite PC10.minus_filter_nil | rewrite PC10.minus_nil]; intros [].
+  - unfold c19_attrs_view, good. cbn. discriminate.
+  - destruct (expand_mod_inv _ _ _ _ _ _ _ _ H) as (_ & bitems & fl & a & fns0 & tg & mode & ib & _ & Ha & _ & _ & _ & ->).
+    unfold c19_attrs_view, good. cbn [x_input]. rewrite parts_mod. cbn [decided v_app v_det v_holds]. intros _. split; [reflexivity|].
+    rewrite PC10.t_attrs_gen_trait_def. apply forallb_abs_minus.
+Qed.
+
 Lemma c19_view v attr i items :
   expand_items v attr i = Ok items -> good (view_C19g (mkCtx v attr i) items).
 Proof.
-  intros H. unfold view_C19g. cbn [x_input]. destruct (c19_clash i) eqn:E; [exact good_na | exact (c19_view_partial _ _ _ _ H E)].
+  intros H. unfold view_C19g. cbn [x_input]. destruct (c19_clash i) eqn:E; [exact good_na|].
+  apply good_view_and; [exact (c19_view_partial _ _ _ _ H E) | exact (c19_attrs_good _ _ _ _ H)].
 Qed.
